@@ -800,6 +800,7 @@ func RunUCITwins(sc *UCIScenario, mk func(w *uciWorld) chooser, n int) (a *UCIOu
 			if w.apply(st) {
 				w.out.Steps = append(w.out.Steps, st)
 			}
+			w.settle() // the effects of the step are complete before the next driver moves
 		}
 	}
 	for i, w := range ws {
@@ -814,7 +815,10 @@ func outLines(out *UCIOutcome) []string {
 	for _, e := range out.Events {
 		if e.Kind == "OUT" {
 			for _, l := range strings.Split(strings.TrimSuffix(e.Data, "\n"), "\n") {
-				ls = append(ls, maskTime(l))
+				if firstToken(l) == "info" {
+					l = "info " + lineKey(l)
+				}
+				ls = append(ls, l)
 			}
 		}
 	}
